@@ -87,7 +87,10 @@ def run(ctx, proof):
         else:
             v, exact = (games.sam_game(rng, n, "int"), True) if r < 0.7 else (campaign.repo_generator_game(rng, n, campaign.SAM_GENS)[0], False)
         init_ids = games.minimal_ids(n)
-        env, feed = envlib.make_env(n, comp, gap, None, init_ids, [v])
+        # step budgets (run_steps_limit): none, exhausted by the NEXT step, or one step later - the rule must not depend on it
+        budget = rng.choice([None, None, len(pre) + 1, len(pre) + 1, len(pre) + 2])
+        env, feed = envlib.make_env(n, comp, gap, budget, init_ids, [v])
+        ctx.count("step_budget", "none" if budget is None else f"+{budget - len(pre)}")
         for a in pre:
             env.step(a)
         ops = [("reset", v, [float(x) for x in env.normalized_game.get_values()])] + [("step", a) for a in pre]
@@ -95,8 +98,11 @@ def run(ctx, proof):
         if not valid:
             continue
         before = snapshot(env)
-        greedy = SOLVERS["greedy"]()
-        rewards = [float(greedy._next_action_value(env, a)) for a in valid]
+        def try_reward(a_):       # public API only: the immediate reward of an action = reward returned by step, then undo
+            r_ = float(env.step(a_)[1])
+            env.unstep(a_)
+            return r_
+        rewards = [try_reward(a) for a in valid]
         if snapshot(env) != before:
             ctx.violation("trying actions (step + unstep) does not restore the environment",
                           {"n": n, "comp": comp, "gap": gap, "v": [str(x) for x in v], "pre": pre})
@@ -133,7 +139,7 @@ def run(ctx, proof):
                 if len(set(sizes)) > 1:
                     ctx.nontrivial.add((name, n, tuple(pre)))
         ops_q = ops + [("q_valid",), ("q_largest",)] + [("q_try", a) for a in valid]
-        lines.append(envlib.env_line(n, comp, gap, None, init_ids, ops_q))
+        lines.append(envlib.env_line(n, comp, gap, budget, init_ids, ops_q))
         lines.append("pick 0 %d %s %d %s" % (len(valid), " ".join(map(str, valid)), len(valid), " ".join(qtok(x) for x in rewards)))
         lines.append("pick 1 %d %s %d %s" % (len(valid), " ".join(map(str, valid)), len(valid), " ".join(qtok(x) for x in rewards)))
         metas.append({"n": n, "comp": comp, "gap": gap, "v": v, "pre": pre, "valid": valid, "rewards": rewards,
